@@ -9,12 +9,29 @@ def run(chk):
     for q in NGRAM:
         chk.kernel(q, replayer=lambda c, bad, tir, contract: _oracle.c12_equiv(c, 40))
     _glue.glue_part(chk, CLASSES, {"add", "add_ngram", "getitem", "query", "update", "update_ngram"}, lambda: _oracle.c12_equiv(chk, 60))
+    # multiplicity: add(key, v) == v single adds, by a closed form proved inductive (linear, heavy hitters)
+    import z3
+    from ..lemmas_cm import lemmas_c12_linear
+    from ..lemmas_hh import lemmas_c12_hh
+    from ..lemmas_hll import lemmas as hll_lemmas
+
+    lin, hhl = lemmas_c12_linear(), lemmas_c12_hh()
+    for name, hyps, goal in lin + hhl:
+        chk.prove("lemma:" + name, hyps, goal)
+    chk.cover("linear unit-step hypotheses", lin[0][1])
+    chk.cover("hh unit-step hypotheses", hhl[0][1])
+    for name, hyps, goal in hll_lemmas():
+        if name == "add-idempotent":
+            chk.prove("lemma:c12:hll:" + name + " (v single adds == one add; add ignores the multiplicity)", hyps, goal)
+    # canary: an off-by-one closed form is not inductive
+    name, hyps, goal = lin[1]
+    chk.prove("canary:c12:linear:n_added closed form off by one", hyps + [z3.Int("depth") == 1, z3.Int("width") == 1], z3.Function("n1u", z3.IntSort(), z3.IntSort())(0) == z3.Function("nn0", z3.IntSort(), z3.IntSort())(0) + z3.Int("j") + 2, expect="refuted")
     n = 12 if chk.tier == "quick" else 400
     bad = _oracle.c12_equiv(chk, n)
     if bad:
         chk.violation("C12:bounded:equivalence-oracle", {"verdict": "bounded oracle failed"}, bad)
     chk.bounded_standin("real classes: update(list/dict), add(k,v) vs v single adds, add_ngram vs windows, update_ngram, sketch[key] vs query - identical resulting state (log types under identical draws)", "%d rounds x 5 classes, small widths, keys incl. NUL/short/long" % n, n * 5, int(bool(bad)))
-    chk.notes.append("Proved: (i) every n-gram kernel performs exactly one call of its family's add kernel per window key[i:i+n], i = 0..len-n, with multiplicity 1 (one call on the whole key when len <= n), on its own tables, threading the random pointer, and stores nothing else (call-sequence contracts from the typed IR; HyperLogLog: ghost fold); (ii) update(list), update(dict), update_ngram issue exactly the kernel-call sequence of the loop of single calls, __getitem__ the one of query (symbolic execution of the real methods). NOT proved: 'add(key, v) equals v single adds' - covered by the bounded oracle only (all five classes, log types under identical draws).")
+    chk.notes.append("Proved: (i) every n-gram kernel performs exactly one call of its family's add kernel per window key[i:i+n], i = 0..len-n, with multiplicity 1 (one call on the whole key when len <= n), on its own tables, threading the random pointer, and stores nothing else (call-sequence contracts from the typed IR; HyperLogLog: ghost fold); (ii) update(list), update(dict), update_ngram issue exactly the kernel-call sequence of the loop of single calls, __getitem__ the one of query (symbolic execution of the real methods). (iii) add(key, v) equals v single adds: for linear count-min and heavy hitters (0 <= v <= 2^32-1) by a closed form F_j of the state after j unit adds, proved inductive from the exact clauses of the add kernels and equal to the bulk add at j = v (the induction over j itself is the usual meta-step); HyperLogLog by idempotence. NOT proved: the multiplicity clause for the log types (same draws consumed in the same order) - bounded oracle only.")
     chk.assumptions.add("documented input domain: multiplicities 0 <= v < 2^64, n >= 1, keys are bytes")
 
 
